@@ -350,6 +350,14 @@ def cases(tier):
             add("functional.stack", {"shape": shape, "count": k, "dim": dim}, [(n_, shape, ANY) for n_ in names], lambda T, names=names, dim=dim: F.stack([T[n_] for n_ in names], dim),
                 lambda A, names=names, dim=dim: R.stack([A[n_] for n_ in names], dim))
     add("functional.stack", {"shapes": [(2,), (3,)], "dim": 0}, [("t0", (2,), ANY), ("t1", (3,), ANY)], lambda T: F.stack([T["t0"], T["t1"]], 0), lambda A: R.stack([A["t0"], A["t1"]], 0))
+    # operands of unequal shape are illegal for stack / concat even when they would broadcast (in either order)
+    for sa, sb in [((3,), (1,)), ((1,), (3,)), ((3,), ()), ((), (3,)), ((2, 3), (3,)), ((3,), (2, 3)), ((2, 3), (1, 3)), ((2, 1), (2, 3))]:
+        for dim in (0, -1):
+            add("functional.stack", {"shapes": [sa, sb], "dim": dim, "broadcastable_but_unequal": True}, [("t0", sa, ANY), ("t1", sb, ANY)], lambda T, dim=dim: F.stack([T["t0"], T["t1"]], dim),
+                lambda A, dim=dim: R.stack([A["t0"], A["t1"]], dim))
+    for sa, sb, dim in [((2, 3), (3,), 0), ((3,), (1, 3), 0), ((2, 3), (2, 1, 1), 1), ((2, 3), (), 0)]:
+        add("functional.concat", {"shapes": [sa, sb], "dim": dim, "rank_mismatch": True}, [("t0", sa, ANY), ("t1", sb, ANY)], lambda T, dim=dim: F.concat([T["t0"], T["t1"]], dim),
+            lambda A, dim=dim: R.concat([A["t0"], A["t1"]], dim))
     for shape in [(3,), (2, 3), (2, 3, 2)]:
         for dim in range(-len(shape) - 1, len(shape) + 1):
             add("functional.unbind", {"shape": shape, "dim": dim}, [("a", shape, ANY)], lambda T, dim=dim: list(F.unbind(T["a"], dim)), lambda A, dim=dim: R.unbind(A["a"], dim))
